@@ -16,6 +16,7 @@ import Dawgs.Proofs.C01Count
 import Dawgs.Proofs.C01CountHop
 import Dawgs.Proofs.C01Limit
 import Dawgs.Proofs.C01Pred
+import Dawgs.Proofs.C01Cross
 import Dawgs.Generated.C02Guard
 namespace Dawgs.C02.Props
 open Dawgs Dawgs.Sql Dawgs.C02 Dawgs.C02.Proofs Dawgs.C01.Proofs
@@ -608,6 +609,87 @@ theorem opt_equiv (fo fu : C01.S2.Query → Bool) (co cu : C01.Ch.Query → Bool
 
 /-- the instance for the model's own direction approximations -/
 theorem opt_equiv_default : C02_full trOpt trUnopt := opt_equiv C01.flipOpt C01.flipUnopt (fun _ => false) (fun _ => false) (fun _ => false) (fun _ => false)
+
+/-! ### the stages whose statement no optimiser switch touches: S1o, S1d, S3a, S3b -/
+
+/-- on a query that has one of the four readings both variants emit THE SAME statement (the stage translators `S1o.Query.tr`, `S1d.Query.tr`,
+`S3.Query.tr`, `S3b.Query.tr` take no optimiser switch: no join order to choose, nothing to prune, no fast path, no LIMIT to push), so equivalence is
+reflexivity; elsewhere `withStages T` is `T`. Hence `C02_full` lifts from any pair of translators to the pair read through `withStages` -/
+theorem withStages_full (To Tu : KindMap → Cy.Query → Option (Stmt × List (String × Val))) (h : C02_full To Tu) :
+    C02_full (withStages To) (withStages Tu) := by
+  intro km g q so su po pu hok ho hu to tu hto htu
+  have same : ∀ (r : Option Stmt), r.map (fun st => (st, ([] : List (String × Val)))) = some (so, po) →
+      r.map (fun st => (st, ([] : List (String × Val)))) = some (su, pu) → (to.rows.map valsToR).Perm (tu.rows.map valsToR) := by
+    intro r h1 h2
+    rw [h1] at h2
+    cases h2
+    rw [hto] at htu
+    cases htu
+    exact List.Perm.refl _
+  unfold withStages at ho hu
+  cases hd : C01.ofCyDistinct q with
+  | some s => rw [hd] at ho hu; exact same _ ho hu
+  | none =>
+    rw [hd] at ho hu
+    cases hor : C01.ofCyOrder q with
+    | some s => rw [hor] at ho hu; exact same _ ho hu
+    | none =>
+      rw [hor] at ho hu
+      cases hw : C01.ofCyWith q with
+      | some s => rw [hw] at ho hu; exact same _ ho hu
+      | none =>
+        rw [hw] at ho hu
+        cases hh : C01.ofCyWithHop q with
+        | some s => rw [hh] at ho hu; exact same _ ho hu
+        | none =>
+          rw [hh] at ho hu
+          exact h km g q so su po pu hok ho hu to tu hto htu
+
+/-- `opt_equiv_stages`: `C02_full` for every pair of variants of the model translator over the stages S1, S1c, S1o, S1d, S2b, S2c, S2n, S3a and S3b
+(`trVariantS` = the four switch-free stages read first, else `trVariant`). That the REAL translator's two outputs are these statements —
+in particular that they are IDENTICAL on S1o / S1d / S3a / S3b queries — is checked on every run (families fragment:s1o / s1d / s3a / s3b, outcome `frag-tie`) -/
+theorem opt_equiv_stages (fo fu : C01.S2.Query → Bool) (co cu : C01.Ch.Query → Bool) (no nu : C01.S2n.Query → Bool) :
+    C02_full (trVariantS fo co no true) (trVariantS fu cu nu false) :=
+  withStages_full _ _ (opt_equiv fo fu co cu no nu)
+
+/-! ### stage S2x: a hop whose WHERE compares a property of `a` with a property of `b` -/
+
+/-- `opt_equiv_cross`: on stage S2x the optimised statement (frame pruned to the bindings that are read, join order `fo`) and the unoptimised one
+(complete frame, join order `fu`) return the same bag of rows on every `GraphOK2` graph in which the compared property keys hold scalars
+(`CrossScalar` — the hypothesis of C01's `tr_sound_S2x`: both statements are shown to be permutations of the reference rows, hence of each
+other; WITHOUT it the two statements still compare the same jsonb values, but that needs an SQL-to-SQL argument that is not proved) -/
+theorem opt_equiv_cross (km : KindMap) (g : Graph) (hok : GraphOK2 km g) (s : C01.S2x.Query) (hS : CrossScalar s g.nodes) (fo fu : Bool)
+    (so su : Stmt) (ho : s.stmtWith km fo true = some so) (hu : s.stmtWith km fu false = some su)
+    (to tu : Table) (hto : Sql.eval (encode km g) so [] = .ok to) (htu : Sql.eval (encode km g) su [] = .ok tu) :
+    (to.rows.map valsToR).Perm (tu.rows.map valsToR) := by
+  obtain ⟨r1, n1, rows1, hr1, hb1, hp1⟩ := C01.Proofs.s2x_sound km g hok s hS fo true so ho
+  obtain ⟨r2, n2, rows2, hr2, hb2, hp2⟩ := C01.Proofs.s2x_sound km g hok s hS fu false su hu
+  rw [hr1] at hr2; cases hr2
+  have e1 : to = ⟨n1, rows1⟩ := by
+    rcases hb1 with h | ⟨u, h⟩
+    · rw [h] at hto; cases hto; rfl
+    · rw [h] at hto; cases hto
+  have e2 : tu = ⟨n2, rows2⟩ := by
+    rcases hb2 with h | ⟨u, h⟩
+    · rw [h] at htu; cases htu; rfl
+    · rw [h] at htu; cases htu
+  subst e1 e2
+  exact hp1.trans hp2.symm
+
+/-- the model pair read through `withCross`: on an S2x query it is the pair of `opt_equiv_cross` -/
+theorem withCross_cases (fo fu : C01.S2x.Query → Bool) (To Tu : KindMap → Cy.Query → Option (Stmt × List (String × Val))) (km : KindMap) (q : Cy.Query)
+    (so su : Stmt) (po pu : List (String × Val)) (ho : withCross fo true To km q = some (so, po)) (hu : withCross fu false Tu km q = some (su, pu)) :
+    (C01.ofCyCross q = none ∧ To km q = some (so, po) ∧ Tu km q = some (su, pu)) ∨
+    (∃ s : C01.S2x.Query, C01.ofCyCross q = some s ∧ s.toCy = q ∧ s.stmtWith km (fo s) true = some so ∧ s.stmtWith km (fu s) false = some su ∧ po = [] ∧ pu = []) := by
+  unfold withCross at ho hu
+  cases hc : C01.ofCyCross q with
+  | none => rw [hc] at ho hu; exact Or.inl ⟨rfl, ho, hu⟩
+  | some s =>
+    rw [hc] at ho hu
+    obtain ⟨so', hso, heq⟩ := Option.map_eq_some_iff.mp ho
+    obtain ⟨su', hsu, heq'⟩ := Option.map_eq_some_iff.mp hu
+    cases heq; cases heq'
+    exact Or.inr ⟨s, rfl, (C01.Proofs.ofCyCross_sound q s hc).1, hso, hsu, rfl, rfl⟩
 
 /-! ### limit pushdown on the proved fragment (stage S2L of C01: one hop, LIMIT k, no ORDER BY, no SKIP)
 
